@@ -54,6 +54,13 @@ def gen_problem(rng, t):
         p.add_node(0.25, 0.25, cond=len(p.circprops) - 1)
         feats.append("floating-near-fixed")
     p.features = feats
+    # axisymmetric problems: every third one has an EXTERNAL (Kelvin-transformed) region; decided by the assembly tie, skipped by the SI oracle
+    p.has_ext = False
+    if p.ptype == "axi" and len(p.labels) > 1 and rng.random() < 0.34:
+        W = max(n["x"] for n in p.nodes)
+        p.ext = (rng.choice([0.0, 1.5]), rng.choice([2.0 * W, 20.0]), rng.choice([W, 8.0]))
+        rng.choice(p.labels[1:])["ext"] = 1
+        p.has_ext = True
     return p
 
 
@@ -235,6 +242,9 @@ def main(argv):
                             ck.violation("true-residual", "PCGSolve returned with true relative residual %.3g" % v, dict(files=run.files(), log=l))
             sol = femmio.read_solution(run.solution_path(), "h")
             stats["nodes"] += len(sol["nodes"])
+            if getattr(p, "has_ext", False):
+                stats["external_region_problems"] = stats.get("external_region_problems", 0) + 1
+                continue
             mesh = fem_oracle.Mesh(p, sol)
             T = np.array([v[0] for v in mesh.vals])
             K, f, fixed, cond = fem_oracle.heat_system(mesh, T)
